@@ -23,7 +23,7 @@ for p in parts[1:]:
         p = p.rstrip('\n') + '\n\n' + open(note).read().rstrip('\n') + '\n\n'
     out.append(p + tail)
 doc = head + ''.join(out)
-for extra in ('asbuilt_defects.md', 'asbuilt_seeded.md', 'asbuilt_levels.md'):
+for extra in ('asbuilt_defects.md', 'asbuilt_seeded.md', 'asbuilt_coverage.md', 'asbuilt_levels.md'):
     f = os.path.join(here, extra)
     if os.path.exists(f):
         doc = doc.rstrip('\n') + '\n\n' + open(f).read()
